@@ -71,6 +71,36 @@ def valid_texts(mdl, texts):
     outs = lib.run_lines(mdl, ["parse %s 3" % f for f in fs])
     return [t for t, o in zip(texts, outs) if o.startswith("parse 0 ")]
 
+
+# ------------------------------------------------------------------ degenerate shapes shared by the pools
+# masks beyond the six named bits: only undefined bits, undefined + one named bit, the top bit
+ODD_MASKS = [64, 128, 256, 2147483648, 4294967232, 65, 2147483656]
+
+def degenerate_texts():
+    """every combination of absent / present-but-empty / non-empty for user info, host, port, path, query and fragment
+    (a component that is present but empty must stay present and empty through every operation)"""
+    out = []; seen = set()
+    for sch in ("", "s:"):
+        for auth in ("", "//", "//h", "//@", "//@h", "//u@", "//:", "//h:", "//:8", "//@:", "//u@h:", "//[::1]:", "//@[v1.x]", "//1.2.3.4:", "//u@1.2.3.4", "//u:p@[::1]"):
+            for path in ("", "/", "/a", "a", "/a/", "//"):
+                if auth and path and not path.startswith("/"): continue
+                for q in ("", "?", "?q"):
+                    for f in ("", "#", "#f"):
+                        t = sch + auth + path + q + f
+                        if t not in seen: seen.add(t); out.append(t)
+    return out
+
+# IPv6 literals whose spelling is longer or shorter than the canonical 39-character form uriToString writes, and IPv4 tails
+LONG_IP6 = ["[0000:0000:0000:0000:0000:ffff:255.255.255.255]", "[0000:0000:0000:0000:0000:0000:100.100.100.100]", "[FFFF:FFFF:FFFF:FFFF:FFFF:FFFF:255.255.255.255]",
+            "[0:0:0:0:0:0:0.0.0.0]", "[::]", "[::1.2.3.4]", "[1:2:3:4:5:6:7:8]", "[0001:0002:0003:0004:0005:0006:0007:0008]", "[::ffff:192.168.100.200]", "[1::]", "[1:2:3:4:5:6:77.77.77.77]"]
+def long_ip6_texts():
+    out = []
+    for h in LONG_IP6:
+        for pre in ("//", "s://", "//u@"):
+            for post in ("", "/", ":", ":8", "/a?q", "?q", "#f"):
+                out.append(pre + h + post)
+    return out
+
 # ------------------------------------------------------------------ histories
 def hist(steps):
     """steps: list of tuples ('p',k,text) ('a',k,i,j,opt) ('r',k,i,j,mode) ('n',k,mask) ('o',k) ('e',k,i) ('f',k)"""
